@@ -674,6 +674,23 @@ pub fn gen_k2(rng: &mut Rng) -> Case {
             Item { col, cspan, row, rspan, w: b(w), h: b(h), margin, ov }
         })
         .collect();
+    // indefinite container axes: sized under a max-content / min-content constraint or a definite available space
+    if rng.chance(2, 5) {
+        let av = |rng: &mut Rng, max: u64| match rng.below(4) {
+            0 => (1u64, 0u32),
+            1 => (2, b(20.0 + k_len(rng, max))),
+            _ => (0, 0),
+        };
+        match rng.below(3) {
+            0 => c.wk = 1,
+            1 => c.hk = 1,
+            _ => {
+                c.wk = 1;
+                c.hk = 1;
+            }
+        }
+        c.avail = [av(rng, 400), av(rng, 300)];
+    }
     c
 }
 
@@ -714,10 +731,31 @@ pub fn witness_overshoot() -> Case {
     plain(25.0, 50.0, vec![mm(10.0), mm(100.0)], vec![single(px(50.0))], vec![Item::plain(1, 1, 0, 0)])
 }
 
+/// Witness (c): the same THRESHOLD leak inside step 11.5.  `minmax(min-content, 50px) minmax(10px, 10.008px) 100px`, gap 5,
+/// in a 100px grid (no free space: 11.6 does nothing), one item of width 200 spanning the three columns.  When its
+/// min-content contribution is distributed the only affected track (the first) is at its limit, no affected track has an
+/// intrinsic max => "distribute beyond limits" selects EVERY spanned track (`filter = |_| true`), the second track has
+/// 0.008 of head-room, so every spanned track -- the fixed 100px one and both gutters -- is raised by 0.008.
+pub fn witness_c() -> Case {
+    let mut c = plain(
+        100.0,
+        50.0,
+        vec![
+            single(Tr { min: Sf(6, 0), max: Sf(0, b(50.0)) }),
+            single(Tr { min: Sf(0, b(10.0)), max: Sf(0, b(10.008)) }),
+            single(px(100.0)),
+        ],
+        vec![single(px(50.0))],
+        vec![Item { col: 1, cspan: 3, row: 1, rspan: 1, w: b(200.0), h: b(10.0), margin: [0; 4], ov: [0; 2] }],
+    );
+    c.gap = [(0, b(5.0)), (0, 0)];
+    c
+}
+
 /// Fixed corpus evaluated before the random K cases (witnesses of the refuted statements, regression shapes).
 pub fn corpus() -> Vec<Case> {
     let rep = |kind: u64, count: u64, tracks: Vec<Tr>| Entry { kind, count, tracks };
-    let mut v = vec![witness_a(), witness_b(), witness_b2(), witness_overshoot()];
+    let mut v = vec![witness_a(), witness_b(), witness_b2(), witness_overshoot(), witness_c()];
     // the repaired mixed-repeat count: repeat(2, 10px 20px) repeat(auto-fill | auto-fit, 30px) at 100px
     for kind in [2, 3] {
         v.push(plain(
@@ -1371,7 +1409,7 @@ pub fn main(args: &[String]) {
             println!("PROBE autofit-empty-axis {:?}", r.map_err(|e| e.downcast_ref::<String>().cloned().unwrap_or_default()));
         }
         "witness" => {
-            for (name, c) in [("a", witness_a()), ("b", witness_b()), ("b2", witness_b2()), ("overshoot", witness_overshoot())] {
+            for (name, c) in [("a", witness_a()), ("b", witness_b()), ("b2", witness_b2()), ("overshoot", witness_overshoot()), ("c", witness_c())] {
                 let r = run_spec(&c.spec(), c.avail()).unwrap();
                 println!("WITNESS {} sizes={:?} gutters={:?} container={}", name, r.info.columns.sizes, r.info.columns.gutters, r.root.size.width);
                 let mut ch = [0u64; 5];
